@@ -135,6 +135,7 @@ rejected by the parser: see `invalid_frames_rejected`). -/
 def FrameValid : Frame → Prop
   | .newToken tok => tok ≠ []
   | .maxStreams _ m => m ≤ maxStreamsLimit
+  | .streamsBlocked _ m => m ≤ maxStreamsLimit
   | .newConnectionID seq retire cid tok => retire ≤ seq ∧ 1 ≤ cid.length ∧ cid.length ≤ 20 ∧ tok.length = 16
   | .pathChallenge d => d.length = 8
   | .pathResponse d => d.length = 8
@@ -226,12 +227,14 @@ theorem frame_roundtrip (avail : Nat) (f : Frame) (bs tail : List Nat) (hv : Fra
     obtain ⟨he, hl⟩ := writeSized_added _ _ _ h
     obtain ⟨x, hx, rfl⟩ := enc1_inv _ _ _ he
     refine ⟨?_, hl⟩
+    simp only [FrameValid] at hv
+    have hm : ¬ m > maxStreamsLimit := by omega
     cases uni
     · have := parseFrame_of_body ftStreamsBlockedBidi x tail (Frame.streamsBlocked false m)
-        (by simp [parseBody, parse1_enc m x tail _ hx])
+        (by simp [parseBody, takeVarint_append m x tail hx, hm])
       simpa using this
     · have := parseFrame_of_body ftStreamsBlockedUni x tail (Frame.streamsBlocked true m)
-        (by simp [parseBody, parse1_enc m x tail _ hx])
+        (by simp [parseBody, takeVarint_append m x tail hx, hm])
       simpa using this
   case retireConnectionID seq =>
     obtain ⟨he, hl⟩ := writeSized_added _ _ _ h
@@ -730,7 +733,7 @@ private theorem parseBody_valid : ∀ (t : Nat) (rest : List Nat) (f : Frame) (r
     simp [parseBody] at h
 
 /-- **Out-of-range values are rejected**: whatever bytes are given, an accepted frame satisfies
-the RFC 9000 field constraints (MAX_STREAMS ≤ 2^60, non-empty NEW_TOKEN, NEW_CONNECTION_ID with
+the RFC 9000 field constraints (MAX_STREAMS and STREAMS_BLOCKED ≤ 2^60, non-empty NEW_TOKEN, NEW_CONNECTION_ID with
 retire ≤ seq and a 1..20 byte connection ID and 16-byte token, STREAM end offset < 2^62,
 8 bytes of path data). -/
 theorem parser_accepts_only_valid (b : List Nat) (f : Frame) (n : Nat) (h : parseFrame b = some (f, n)) :
